@@ -312,7 +312,7 @@ func runDiff(r *harness.Run, c diffCase) error {
 func main() { harness.Main("C03", "model_checking", run) }
 
 func run(r *harness.Run) {
-	r.Rule("proto-event alphabet (9 type/state-key shapes x 1-3 contents x prev/auth lists of 0-2 IDs x depth {0,1,2^53-1} x unsigned {absent,present} x 2 signers) x all 16 room versions, built with the real EventBuilder; explicit-state search over edit sequences (SetUnsigned, SetUnsignedField, Sign by another server, Redact, re-parse untrusted/trusted/headered, repeated accessors) up to depth D with accessor-by-accessor comparison after every transition; hashed event IDs compared with refevent (own redaction + canonical form + sha256 + alphabet); all pairs of proto-events differing in exactly one field must differ in ID (unsigned-only differences must not). Non-trivial = distinct (version, event, op sequence).")
+	r.Rule("proto-event alphabet (9 type/state-key shapes x 1-3 contents x prev/auth lists of 0-2 IDs x depth {0,1,2^53-1} x unsigned {absent,present} x 2 signers) x all 16 room versions, built with the real EventBuilder; explicit-state search over edit sequences (SetUnsigned, SetUnsignedField, Sign by another server, Redact, re-parse untrusted/trusted/headered, repeated accessors) up to depth D (3 quick, 4 thorough; 1 / 2 on the non-base list / depth / signer settings) with accessor-by-accessor comparison after every transition; hashed event IDs compared with refevent (own redaction + canonical form + sha256 + alphabet); all pairs of proto-events differing in exactly one field must differ in ID (unsigned-only differences must not). Non-trivial = distinct (version, event, op sequence).")
 	r.Assume("sha256/ed25519 trusted")
 	r.OnReplay("seq", func(raw json.RawMessage) error {
 		var c seqCase
@@ -331,7 +331,8 @@ func run(r *harness.Run) {
 	if r.Replaying() {
 		return
 	}
-	D := r.Pick(3, 3)
+	D := r.Pick(3, 4)
+	shallow := r.Pick(1, 2) // op-sequence depth for the non-base settings
 	vers := refversions.All()
 	type job struct {
 		ver string
@@ -361,7 +362,7 @@ func run(r *harness.Run) {
 		// the full op-sequence search runs on the base setting of each (type, content); other settings get depth 1
 		baseSetting := len(j.p.Prev) == 1 && len(j.p.Auth) == 1 && j.p.Depth == 1 && j.p.Signer == 0
 		for _, ops := range seqs {
-			if !baseSetting && len(ops) > 1 {
+			if !baseSetting && len(ops) > shallow {
 				continue
 			}
 			c := seqCase{j.ver, j.p, ops}
